@@ -1403,6 +1403,17 @@ func (e *Enc) evalModTarget(x *SExpr, env *SpecEnv) []modTarget {
 			}
 		}
 	}
+	// package-qualified ghost var
+	if x.Op == "sel" && x.Args[0].Op == "ident" {
+		if pp := env.importedPkg(x.Args[0].Name); pp != "" {
+			for _, g := range e.w.cs.GVars {
+				if g.Pkg == pp && g.Field == x.Name {
+					sortS, _ := ghostSort(g.Typ)
+					return []modTarget{{comp: "GV:" + pp + "." + x.Name, sort: "(Array Int " + sortS + ")", kind: "point", addr: "0"}}
+				}
+			}
+		}
+	}
 	// ghost field
 	if x.Op == "sel" {
 		base := env.evalOrNilSafe(x.Args[0])
